@@ -108,6 +108,8 @@ func checkC05(c *Ctx) {
 func c5EnabledCheap(c *Ctx, impls []*types.Named) {
 	c.Rule("R5.7", "Enabled of every Core implementation reaches no With / field marshaling / hook / encoder / sink call", 4)
 	c.Rule("R5.9", "NewTee keeps every core it is given (no construction-time filtering by what a core enables at that moment)", 1)
+	c.Rule("R5.10", "zapio.Writer: nothing is buffered or logged while the writer's level is disabled (bytes written then must not surface once the level is lowered)", 5)
+	c17Rules(c, "R5.10")
 	c5NewTee(c, "R5.9")
 	heavy := func(cl ssa.CallInstruction) string {
 		cc := cl.Common()
